@@ -252,6 +252,7 @@ harnesses! {
     #[kani::proof] #[kani::unwind(8)] delta_apply_4_5_4 => h_delta_apply::<4, 5, 4, _>;
     #[kani::proof] #[kani::unwind(8)] delta_apply_4_6_5 => h_delta_apply::<4, 6, 5, _>;
     #[kani::proof] #[kani::unwind(10)] delta_apply_6_8_8 => h_delta_apply::<6, 8, 8, _>;
+    #[kani::proof] #[kani::unwind(13)] delta_apply_8_10_11 => h_delta_apply::<8, 10, 11, _>;
     #[kani::proof] #[kani::unwind(258)] fanout_2 => h_fanout::<2, _>;
     #[kani::proof] #[kani::unwind(258)] fanout_4 => h_fanout::<4, _>;
     #[kani::proof] #[kani::unwind(258)] fanout_6 => h_fanout::<6, _>;
